@@ -113,7 +113,7 @@ async def run_history(case):
     rig.raise_on = set(case.get("raise_on", []))
     caps = None
     sent = []
-    await rig.start()
+    await rig.start(case.get("callback", "bound-method"))
     try:
         for _ in range(case.get("restarts", 0)):
             # "a running bridge" includes one that was stopped and started again
@@ -159,7 +159,7 @@ def body(rep, case, sub="histories"):
         else:
             bad_seen.add(pi)
     labels = sorted({f"has-{k}" for _, _, _, k in sent}) + [f"ports={case['ports']}"] + (["callback-raises"] if raise_on else []) + (
-        ["after-restart"] if case.get("restarts") else [])
+        ["after-restart"] if case.get("restarts") else []) + [f"callback={case.get('callback', 'bound-method')}"]
     rep.tick(sub, key=[(pi, label, kind) for pi, label, tag, kind in sent] + [sorted(raise_on)], nontrivial=nt, sample=case, labels=labels)
     ports_of = {}
     for pi, label, tag, kind in sent:
@@ -170,7 +170,8 @@ def body(rep, case, sub="histories"):
     label_of = {tag: label for pi, label, tag, kind in sent if tag}
     if dead:
         bad = any(l != "valid" for _, l, _, _ in sent)
-        raise Violation("C07/delivery-stops/" + ("after-restart/" if case.get("restarts") else "") + "after-"
+        raise Violation("C07/delivery-stops/" + (f"callback={case['callback']}/" if case.get("callback") else "")
+                        + ("after-restart/" if case.get("restarts") else "") + "after-"
                         + ("bad-datagram" if bad else "raising-callback" if raise_on else "valid-only"), case,
                         "closing sentinel delivered on every port", {"dead_port_indices": dead, "loop_errors": loop_errors[:3]})
     for t in tags:
@@ -234,9 +235,11 @@ def dgram(nports):
 
 def strat(nports):
     return lambda: st.builds(
-        lambda ds, ro, rs: dict({"ports": nports, "dgrams": ds, "raise_on": sorted(set(ro))}, **({"restarts": rs} if rs else {})),
+        lambda ds, ro, rs, cb: dict({"ports": nports, "dgrams": ds, "raise_on": sorted(set(ro))}, **({"restarts": rs} if rs else {}),
+                                    **({"callback": cb} if cb != "bound-method" else {})),
         st.one_of(st.lists(dgram(nports), min_size=1, max_size=60), st.lists(dgram(nports), min_size=12, max_size=60)),
-        st.one_of(st.just([]), st.lists(st.integers(0, 30), max_size=6)), st.sampled_from([0, 0, 0, 0, 1, 2]))
+        st.one_of(st.just([]), st.lists(st.integers(0, 30), max_size=6)), st.sampled_from([0, 0, 0, 0, 1, 2]),
+        st.sampled_from(["bound-method", "bound-method", "function", "partial", "unreferenced-owner", "falsy-callable"]))
 
 
 def subchecks(tier):
